@@ -44,5 +44,6 @@ func checkC17(c *Ctx) {
 // lock hand-offs: function returns holding the lock by design; the named
 // goroutine closure releases it (checked separately under C18).
 var lockHandoffs = map[string]map[string]bool{
-	"db.newMemDBIteratorMtxChoice": {"db.mtx:r": true},
+	"db.newMemDBIteratorMtxChoice":   {"local:db.mtx:r": true},
+	"db.newMemDBIteratorMtxChoice$1": {"db.mtx:r": true},
 }
